@@ -1,5 +1,6 @@
 """C11 - analysis is deterministic.  Spec: Accessors.tla (any order, any number of times) + Trace_Accessors.tla; the hash-seed
 matrix compares canonical dumps of the same scripts in subprocesses started with different PYTHONHASHSEED."""
+from harness import REPO as _REPO
 import hashlib
 import json
 import multiprocessing as mp
@@ -57,8 +58,8 @@ def _acc_chunk(args):
     import warnings
     os.chdir("/tmp")
     warnings.simplefilter("ignore")
-    if "/repo" not in sys.path:
-        sys.path.insert(0, "/repo")
+    if _REPO not in sys.path:
+        sys.path.insert(0, _REPO)
     from sqllineage.runner import LineageRunner
     refs = {}
     out = []
@@ -92,7 +93,7 @@ def _acc_chunk(args):
 
 SEED_DRIVER = r'''
 import sys, json, os, hashlib, re
-sys.path.insert(0, "/verif")
+sys.path.insert(0, sys.argv[3])
 os.chdir("/tmp")
 from harness import drive
 items = json.load(open(sys.argv[1]))
@@ -165,7 +166,7 @@ def run(chk):
         for s in seeds:
             outp = os.path.join(chk.work, "seed_out_%d_%d.json" % (pi, s))
             env = dict(os.environ, PYTHONHASHSEED=str(s))
-            procs.append((pi, s, outp, subprocess.Popen(["/venv/bin/python", drv, inp, outp], env=env, stdout=subprocess.DEVNULL, stderr=subprocess.DEVNULL)))
+            procs.append((pi, s, outp, subprocess.Popen(["/venv/bin/python", drv, inp, outp, tlc.VERIF], env=env, stdout=subprocess.DEVNULL, stderr=subprocess.DEVNULL)))
             if len([p for p in procs if p[3].poll() is None]) >= 16:
                 for p in procs:
                     if p[3].poll() is None:
